@@ -5,8 +5,9 @@
    offline.NameToUUID, the LoginChecker, the status handler, the handlers' verdicts and zlib are
    explicit parameters of the statements; nothing is assumed globally. *)
 From Coq Require Import List String NArith ZArith Bool Permutation.
+From GoMC Require Model.C20 Proofs.C20 Proofs.C20_ll Proofs.C20_term Proofs.C20_top.
 From GoMC Require Import Base.Bytes Base.Dec Gen.Consts Gen.Gate Model.C05 Model.C07 Model.C19_syntax Model.C19
-  Proofs.C07 Proofs.C19_net Proofs.C19_gate Proofs.C19_play Proofs.C19_disp Proofs.C19_expected Proofs.C19_skel Proofs.C19_reg Proofs.C19_skel_disp Proofs.C19_close.
+  Proofs.C07 Proofs.C19_net Proofs.C19_gate Proofs.C19_play Proofs.C19_disp Proofs.C19_expected Proofs.C19_skel Proofs.C19_reg Proofs.C19_skel_disp Proofs.C19_close Proofs.C19_conn.
 Import ListNotations.
 Open Scope Z_scope.
 
@@ -179,6 +180,36 @@ Theorem C19_close_conn_reported :
   let es := repeat QReader (Datatypes.S (List.length wire)) ++ repeat QRead (Datatypes.S (List.length wire)) in
   q_errs (qrun wire es) = 1%nat /\ q_got (qrun wire es) = wire.
 Proof. exact conn_failure_reported. Qed.
+(* The same guarantees obtained from C20 instead of a second model: the queue under warpConn IS C20's
+   machine running the programs translated from net/queue/queue.go, with the reader goroutine as the
+   producer (one Push per packet received, Close at the first read error - the shape is read off the
+   rendered bot/client.go: C19_skeleton_conn) and Conn.ReadPacket as Pull (closure reported = the
+   error).  For every interleaving: FIFO, no race, exactly-once, the error only when closed AND empty
+   with everything pushed handed out, nobody parked for ever after the Close, and a finite bound. *)
+Theorem C19_close_conn_c20 :
+  forall (wire : list N) (m : nat) (s : C20.state), conn_reachable wire m s ->
+  C20.delivered s ++ C20.q s = C20.pushed s /\
+  (C20.race s = false /\ C20.fatal s = false) /\
+  (forall a, C20.sumf (C20_ll.ga a) (C20.thr s) = C20_ll.cN a (C20.delivered s)) /\
+  (forall t, nth_error (C20.thr s) 1 = Some t -> In (C20.RPull None false) (C20.out t) ->
+     C20.closed s = true /\ C20.q s = [] /\ C20.delivered s = C20.pushed s) /\
+  (C20.stuck C20.ll_progs s -> C20.closed s = true ->
+   forall i t, nth_error (C20.thr s) i = Some t -> C20.finished t = true \/ C20.isP t = true).
+Proof. exact conn_is_c20_instance. Qed.
+Theorem C19_close_conn_c20_terminates :
+  forall (wire : list N) (m k : nat) (s : C20.state),
+  C20_term.reachN C20.ll_progs (C20.init 0 (conn_scripts wire m)) k s ->
+  (k + C20_term.phi s <= C20_term.step_bound (conn_scripts wire m))%nat.
+Proof. exact conn_terminates. Qed.
+(* bot/client.go (warpConn with both goroutines, Conn.ReadPacket / WritePacket / Close) rendered from the
+   repository equals the recorded bodies, and has the shape the instance relies on (recv.Close() after the
+   reader's loop; `if !ok { return c.rerr }` after the Pull) *)
+Theorem C19_skeleton_conn :
+  Gate.bot_warp_conn = expected_bot_warp_conn /\ Gate.bot_conn_read_packet = expected_bot_conn_read_packet /\
+  Gate.bot_conn_write_packet = expected_bot_conn_write_packet /\ Gate.bot_conn_close = expected_bot_conn_close /\
+  reader_shape Gate.bot_warp_conn = true /\ read_shape Gate.bot_conn_read_packet = true.
+Proof. exact conn_skel_ok. Qed.
+
 (* in the source every ReadPacket of the gate and of the dispatcher is followed by `if err != nil { return
    <error> }` with these results (rendered from the repository on every run) *)
 Theorem C19_close_error_returns :
@@ -484,6 +515,9 @@ Print Assumptions C19_close_bot.
 Print Assumptions C19_close_server.
 Print Assumptions C19_close_conn.
 Print Assumptions C19_close_conn_reported.
+Print Assumptions C19_close_conn_c20.
+Print Assumptions C19_close_conn_c20_terminates.
+Print Assumptions C19_skeleton_conn.
 Print Assumptions C19_close_error_returns.
 Print Assumptions C19_registry_roundtrip.
 Print Assumptions C19_join_registries.
